@@ -7,7 +7,7 @@ props = [json.loads(l) for l in open(V + '/properties.jsonl')]
 REF = "trusted base: reference toolchain go1.23.5 (amd64) as the executable specification of Go semantics, node v20 as the JavaScript engine, the harness's own generators/normalisers; programs the reference rejects or on which a watchdog fires are inconclusive, never violations"
 checks = {
  "C06": dict(cat="exploration", tech="runtime monitoring: differential trace monitor (table-driven programs vs reference toolchain) + BigInt oracle over direct prelude helper calls",
-   text="Every (numeric type, operator, operand shape) is executed on a boundary grid squared, PRNG operands, all shift counts, 8-bit exhaustively, all numeric conversions and random expression trees; digests and sampled raw results must equal the reference toolchain's; the prelude's 64-bit helpers are called directly on ~7e5 operand pairs against BigInt. Held-on-observed, not a proof.", ref="DESIGN.md §4 C06"),
+   text="Every (numeric type, operator, operand shape) is executed on a boundary grid squared, PRNG operands, all shift counts, 8-bit exhaustively, all numeric conversions, multiplication/division/remainder by constants of every bit length, shifts whose operands have ordered side effects, and random expression trees; integer results are also folded after conversion to float64 (exposes -0); digests and sampled raw results must equal the reference toolchain's; the prelude's 64-bit helpers are called directly on ~7e5 operand pairs against BigInt. Held-on-observed, not a proof.", ref="DESIGN.md §4 C06"),
  "C14": dict(cat="exploration", tech="runtime monitoring: differential trace monitor over run-time enumerated byte strings and generated string literals vs reference toolchain",
    text="All byte strings over a 24-byte boundary alphabet up to length 4 are enumerated at run time (len, index, every slice, range, []rune/[]byte conversions, comparisons, concatenation, map keys, switch, bounds panics), PRNG strings up to 64 bytes, rune conversions at encoding boundaries, and a generated table of literals in every escape form; each category digest must equal the reference's.", ref="DESIGN.md §4 C14"),
  "C15": dict(cat="exploration", tech="runtime monitoring: differential state-digest monitor over PRNG map operation histories + in-program range-contract monitor vs reference toolchain",
